@@ -1,3 +1,69 @@
 import AllfedModel.Model.Report
+import AllfedModel.Proofs.Report
+/-!
+# C04 — headline, monthly breakdown and saved tables agree
+
+For every feasible point of the LP the code builds (human-maximising rounds), every horizon, all
+inputs with non-zero monthly requirement.
+-/
 namespace Allfed.C04
+open Allfed.LP Allfed.AllocLP Allfed.Report
+
+variable {K : Type} [Field K] [LinearOrder K] [IsStrictOrderedRing K]
+
+/-- each contribution is the optimiser's allocation of that food times a constant
+    (`ratio·100 / BILLION_KCALS_NEEDED` in percent) -/
+theorem contribution_linear (i : Inp K) (ratio v : K) (hkm : i.kcalsMonthly ≠ 0) :
+    toPercent i (billionsFed i ratio v) = v * (ratio * 100 / i.billionKcalsNeeded) :=
+  Proofs.Report.contribution_linear i ratio v hkm
+
+/-- the nine per-food contributions of a month add up to that month's consumed-kcals variable -/
+theorem sumPercent_eq_consumed (i : Inp K) (x : Var → K) (h : Feasible (buildLP i .toHumans) x)
+    (hkm : i.kcalsMonthly ≠ 0) (m : Nat) (hm : m < i.nmonths) :
+    sumPercent i x m = x (.mv .consumedKcals m) :=
+  Proofs.Report.sumPercent_eq_consumed i x h hkm m hm
+
+theorem minOver_le (f : Nat → K) (n m : Nat) (hm : m < n) : minOver f n ≤ f m :=
+  Proofs.Report.minOver_le f n m hm
+
+theorem minOver_attained (f : Nat → K) (n : Nat) (hn : 0 < n) : ∃ m, m < n ∧ minOver f n = f m :=
+  Proofs.Report.minOver_attained f n hn
+
+/-- the headline is the smallest monthly consumed-kcals value -/
+theorem headline_eq_min_consumed (i : Inp K) (x : Var → K) (h : Feasible (buildLP i .toHumans) x)
+    (hkm : i.kcalsMonthly ≠ 0) (hN : 0 < i.nmonths) :
+    headline i x = minOver (fun m => x (.mv .consumedKcals m)) i.nmonths :=
+  Proofs.Report.headline_eq_min_consumed i x h hkm hN
+
+/-- the secondary solves cannot degrade the headline below the floor they carry -/
+theorem headline_ge_floor (i : Inp K) (x : Var → K) (z : K)
+    (h : Feasible (buildLP i .toHumans ++ floorRows i .toHumans z) x)
+    (hkm : i.kcalsMonthly ≠ 0) (hN : 0 < i.nmonths) :
+    z * 0.99995 ≤ headline i x :=
+  Proofs.Report.headline_ge_floor i x z h hkm hN
+
+/-- … and it cannot exceed any upper bound `zopt` of the first solve's objective:
+    replacing the objective variable by the headline keeps the point feasible -/
+theorem headline_le_optimum (i : Inp K) (x : Var → K) (zopt : K)
+    (hopt : ∀ x', Feasible (buildLP i .toHumans) x' → x' .objective ≤ zopt)
+    (h : Feasible (buildLP i .toHumans) x) (hkm : i.kcalsMonthly ≠ 0) (hN : 0 < i.nmonths) :
+    headline i x ≤ zopt :=
+  Proofs.Report.headline_le_optimum i x zopt hopt h hkm hN
+
+/-- hence the reported headline is within 0.005 % (< 0.01 %) of the optimum -/
+theorem headline_within_tolerance (i : Inp K) (x : Var → K) (zopt : K)
+    (hopt : ∀ x', Feasible (buildLP i .toHumans) x' → x' .objective ≤ zopt)
+    (h : Feasible (buildLP i .toHumans ++ floorRows i .toHumans zopt) x)
+    (hkm : i.kcalsMonthly ≠ 0) (hN : 0 < i.nmonths) (hz : 0 ≤ zopt) :
+    |headline i x - zopt| ≤ 0.0001 * zopt :=
+  Proofs.Report.headline_within_tolerance i x zopt hopt h hkm hN hz
+
+/-- the split of crops into "eaten immediately" and "eaten from new storage" always adds up,
+    for all inputs (negative production included) -/
+theorem split_adds_up (produced eaten : K) : (splitCrops produced eaten).1 + (splitCrops produced eaten).2 = eaten :=
+  Proofs.Report.split_adds_up produced eaten
+
+example : splitCrops (3 : ℚ) 5 = (3, 2) ∧ splitCrops (7 : ℚ) 5 = (5, 0) ∧ splitCrops (-1 : ℚ) 5 = (-1, 6) := by
+  decide +kernel
+
 end Allfed.C04
